@@ -95,4 +95,22 @@ TEXTS = {
         level_text="Exploration over seeded interleavings of set/remove/get/commit across several transaction and block caches with committed, uncommitted and abandoned ones, with mutable values (bytes and real trie nodes) that the harness mutates after every hand-over.",
         level_note="Trusted: the visibility model; capacity exemption decided from the model, not from the implementation.",
     ),
+    "C08": dict(
+        engine="cachesim+simrt", design_ref="DESIGN.md sections 4.5 and 7 (C08)",
+        technique="deterministic simulation of threads: seeded scheduler (random walk / PCT / run-until-blocked) over an instrumented copy of package statecache at map-access granularity, timing-independent value oracle + must-hit-after-commit oracle, same schedules under the race detector with a race-transparent hand-off; minimised explicit-schedule replays",
+        level_text="Exploration over seeded schedules (tens of thousands quick, millions thorough) of committers and lock-free readers on a prepared block tree; distinct interleavings are counted. Not exhaustive; PCT and forced pre-emption strategies bias towards rare orders.",
+        level_note="Trusted: the instrumenter (adds calls only) and simrt. Two builds: plain for value oracles, -race for the race clause.",
+    ),
+    "C16": dict(
+        engine="mptsim+simrt", design_ref="DESIGN.md sections 4.5 and 5 (C16)",
+        technique="deterministic simulation of threads: seeded scheduler over an instrumented copy of the trie; recorded histories checked for linearizability with porcupine against a map model; final-root refinement; same schedules under the race detector; node-loss fault for lookups into absent nodes",
+        level_text="Exploration over seeded schedules of 2-4 tasks x 2-6 operations on one trie (histories <= 40 operations so the linearizability search stays tractable; Unknown is inconclusive and never reported).",
+        level_note="Trusted: porcupine, the map model, simrt and the instrumenter.",
+    ),
+    "C20": dict(
+        engine="logsim+simrt", design_ref="DESIGN.md section 7 (C20)",
+        technique=SIM + " (ring-buffer model) for sequential histories incl. totals far above the capacity, and a seeded scheduler over an instrumented inmemory_logger.go for concurrent writers/readers with a recency/suffix oracle; race detector build",
+        level_text="Exploration over seeded derive/write histories and seeded schedules of concurrent writers and snapshot readers.",
+        level_note="Trusted: the model (global write sequence) for sequential runs; for concurrent runs the per-task suffix/recency condition, which every linearisation satisfies.",
+    ),
 }
